@@ -314,7 +314,8 @@ theorem shallowCopy_spec {h : Heap} (hc : Closed h) {root : Ref} {n : Node} (hn 
     simp only [shallowCopy, hn, alloc]
     exact ⟨extends_push _ _, closed_push hc hrefs, push_get_size _ _⟩
   | tuple rs =>
-    simp only [shallowCopy, hn]
+    have e : shallowCopy h root = (h, root) := by simp [shallowCopy, hn]
+    rw [e]
     exact ⟨Extends.refl _, hc, hn⟩
   | leaf v => simp [Node.children] at hch
   | null => simp [Node.children] at hch
@@ -425,5 +426,126 @@ theorem applyFn_spec (strict : Bool) {f : LeafFn} (hf : FnOK f) {h : Heap} {root
                 have : kv.1 ∈ p0 :: ps0 := by rw [← m1]; exact List.mem_map.mpr ⟨kv, hkv, rfl⟩
                 exact hplain kv.1 this) hpw ha kv hkv
             exact ⟨kv.2, hget, himg kv hkv x wq⟩
+
+end MlModel.Tree
+
+namespace MlModel.Tree
+
+/-! ## strengthening the leaf relation using what the leaf paths read -/
+
+theorem dictPos_of_nodup {es : List (DKey × Ref)} (hnd : (es.map (·.1)).Nodup) {i : Nat} {dk : DKey} {c : Ref}
+    (hi : es[i]? = some (dk, c)) : dictPos es dk = some i := by
+  induction es generalizing i with
+  | nil => simp at hi
+  | cons e es ih =>
+    obtain ⟨k0, v0⟩ := e
+    simp only [List.map_cons, List.nodup_cons] at hnd
+    cases i with
+    | zero => simp at hi; obtain ⟨rfl, rfl⟩ := hi; simp [dictPos]
+    | succ j =>
+      simp only [List.getElem?_cons_succ] at hi
+      have hne : k0 ≠ dk := by
+        intro e; subst e
+        exact hnd.1 (List.mem_map.mpr ⟨(k0, c), List.mem_of_getElem? hi, rfl⟩)
+      simp [dictPos, hne, ih hnd.2 hi]
+
+theorem seqChildren_get {rs : List Ref} {start i : Nat} {c : Ref} (hi : rs[i]? = some c) :
+    ((PKey.idx ((start + i : Nat) : Int)), c) ∈ seqChildren rs start :=
+  mem_seqChildren.mpr ⟨i, hi, rfl⟩
+
+/-- Every position of `refs` is addressed by one of the keys listed for iteration. -/
+theorem children_at_pos {h : Heap} (hg : GoodDicts h) {b : Ref} {n : Node} (hn : h[b]? = some n) {i : Nat}
+    {c : Ref} (hi : n.refs[i]? = some c) : ∃ k, (k, c) ∈ n.children ∧ n.slotPos k = some i := by
+  cases n with
+  | dict es =>
+    simp only [Node.refs, List.getElem?_map, Option.map_eq_some_iff] at hi
+    obtain ⟨⟨dk, c'⟩, he, rfl⟩ := hi
+    refine ⟨dkeyToPKey dk, List.mem_map.mpr ⟨(dk, c'), List.mem_of_getElem? he, rfl⟩, ?_⟩
+    have hd : (dkeyToPKey dk).toDKey = dk := by cases dk <;> rfl
+    simp only [Node.slotPos, hd]
+    exact dictPos_of_nodup (hg b es hn).1 he
+  | list rs =>
+    simp only [Node.refs] at hi
+    have hlt : i < rs.length := by
+      rcases Nat.lt_or_ge i rs.length with h1 | h1
+      · exact h1
+      · rw [List.getElem?_eq_none h1] at hi; cases hi
+    refine ⟨.idx ((0 + i : Nat) : Int), seqChildren_get hi, ?_⟩
+    simp [Node.slotPos, PKey.asInt, resolveIdx, hlt]
+  | tuple rs =>
+    simp only [Node.refs] at hi
+    have hlt : i < rs.length := by
+      rcases Nat.lt_or_ge i rs.length with h1 | h1
+      · exact h1
+      · rw [List.getElem?_eq_none h1] at hi; cases hi
+    refine ⟨.idx ((0 + i : Nat) : Int), seqChildren_get hi, ?_⟩
+    simp [Node.slotPos, PKey.asInt, resolveIdx, hlt]
+  | leaf v => simp [Node.refs] at hi
+  | null => simp [Node.refs] at hi
+
+/-- If two trees are equal up to `L` and every leaf path of the right tree reads, in the left tree, an
+object `L'`-related to that leaf, then they are equal up to `L'`. -/
+theorem SEqL.strengthen {L L' : Ref → Ref → Prop} {h' h : Heap} (hg : GoodDicts h)
+    (hL : ∀ a b, L a b → ∃ n, h[b]? = some n ∧ n.children = []) {a b : Ref} (s : SEqL L h' h a b) :
+    (∀ q x, LeafWalk h b q x → ∃ v, get h' a q = .ok v ∧ L' v x) → SEqL L' h' h a b := by
+  induction s with
+  | @leaf a b hl =>
+    intro hread
+    obtain ⟨n, hn, hc⟩ := hL a b hl
+    obtain ⟨v, hv, hl'⟩ := hread [] b (.leaf hn hc)
+    simp at hv; subst hv
+    exact .leaf hl'
+  | @node a b n1 n2 e1 e2 hsk hch ih =>
+    intro hread
+    refine .node e1 e2 hsk ?_
+    intro i c1 c2 g1 g2
+    apply ih i c1 c2 g1 g2
+    intro q x wq
+    obtain ⟨k, hmem, hpos⟩ := children_at_pos hg e2 g2
+    obtain ⟨_, hkp⟩ := children_slotGet hg e2 hmem
+    obtain ⟨v, hv, hl'⟩ := hread (k :: q) x (.step e2 hmem wq)
+    refine ⟨v, ?_, hl'⟩
+    have hsl1 : n1.slotGet k = .ok c1 :=
+      Node.slotGet_ok_iff.mpr ⟨i, by rw [Node.slotPos_skel hsk]; exact hpos, g1⟩
+    rw [get_cons _ (Or.inl hkp), index_of_get e1, hsl1] at hv
+    exact hv
+
+end MlModel.Tree
+
+namespace MlModel.Tree
+
+/-! ## executable check of `NonNegKeys`, and a concrete leaf function (for the non-vacuity examples) -/
+
+def nonNegKeysB (h : Heap) : Bool :=
+  h.toList.all fun n => match n with
+    | .dict es => es.all fun e => match e.1 with | .int i => decide (0 ≤ i) | _ => true
+    | _ => true
+
+theorem nonNegKeysB_sound {h : Heap} (hb : nonNegKeysB h = true) : NonNegKeys h := by
+  intro r es hn e he i hi
+  unfold nonNegKeysB at hb
+  rw [List.all_eq_true] at hb
+  have hmem : Node.dict es ∈ h.toList := by
+    have hlt := lt_size_of_get hn
+    have : h[r] = Node.dict es := by
+      have := Array.getElem?_eq_getElem hlt
+      rw [this] at hn; exact Option.some.inj hn
+    rw [← this]
+    exact Array.getElem_mem_toList hlt
+  have := hb _ hmem
+  simp only [List.all_eq_true] at this
+  have := this e he
+  rw [hi] at this
+  simpa using this
+
+/-- `lambda x: [x]` -/
+def wrapFn : LeafFn := fun h r => alloc h (.list [r])
+
+theorem wrapFn_ok : FnOK wrapFn := by
+  intro h r hc hr
+  refine ⟨extends_push _ _, closed_push hc ?_, by simp [wrapFn]⟩
+  intro c hcm
+  simp [Node.refs] at hcm
+  subst hcm; exact hr
 
 end MlModel.Tree
